@@ -336,6 +336,7 @@ def run(prop, tier):
             "generated: coverage overwrites above 1/year, off-grid start, stop year": lambda: at.ProgramInstructions(start_year=2001.0 + dt / 3, stop_year=2009.0 + dt / 2, alloc=pg,
                                                                                                                   coverage={"P2": TimeSeries([2001.0, 2006.0], [2.0, 0.5]), "P1": 0.625}),
             "generated: spending, saturation falling over time": lambda: at.ProgramInstructions(start_year=2001.0, alloc=pg),
+            "generated: spending, unit cost rising in steps": lambda: at.ProgramInstructions(start_year=2001.0, alloc=pg),
             "generated: scalar capacity and zero spending": lambda: at.ProgramInstructions(start_year=2002.0, alloc={"P1": 0, "P2": TimeSeries([2002.0, 2007.0], [90.0, 600.0])}, capacity={"P1": 100.0}),
         }
         for vname, mk in variants.items():
@@ -347,6 +348,12 @@ def run(prop, tier):
                 pg_ = sc.dcp(pg)
                 pg_.programs["P1"].saturation = TimeSeries([2000.0, 2004.0, 2008.0], [0.9, 0.5, 0.25], units="N.A.")
                 pg_.programs["P1"].spend_data = TimeSeries(assumption=3000.0, units="$/year")
+            if "unit cost rising" in vname:
+                import sciris as sc
+
+                pg_ = sc.dcp(pg)
+                pg_.programs["P1"].unit_cost = TimeSeries([2000.0, 2004.0, 2008.0], [1.0, 1.5, 3.0], units="$/person/year")
+                pg_.programs["P2"].unit_cost = TimeSeries([2000.0, 2005.0], [1.5, 2.5], units="$/person (one-off)")
             try:
                 rid, nact = check_run(at, P, ps, pg_, (mk if pg_ is pg else (lambda pg_=pg_: at.ProgramInstructions(start_year=2001.0, alloc=pg_))), label, records, index, rid, V)
                 cov["runs"].append(dict(label=label, active_steps=nact))
